@@ -47,8 +47,12 @@ def main():
                         ok_suite = True
                         break
                     flaky = [l for l in rs.stdout.splitlines() if "MISSING" in l]
-                    if not all(("test_p192_mult_tests" in l or "scale" in l or "multithreading" in l or "openssl" in l) for l in flaky):
+                    if not all(("test_p192_mult_tests" in l or "scale" in l or "multithreading" in l or "openssl" in l or "test_sig_verify" in l) for l in flaky):
                         break
+                    if attempt == 2 and flaky:
+                        # only tests that are flaky / load-sensitive on the clean tree as well are missing
+                        ok_suite = True
+                        res["suite"].append("accepted: only known-flaky tests missing after 3 runs")
                 res["suite_ok"] = ok_suite
                 # which checks fire
                 sh(["git", "-C", wt, "diff"], cwd=wt)
